@@ -80,7 +80,17 @@ def run(ctx):
     cands = [k for k in sorted(seen_) if is_acov(k)]
     below = set()
     for k in cands:
-        below |= set(local_callees(ctx, body_of(ctx, k)))
+        # everything a candidate reaches (also through private dispatch helpers: an enum of methods with a `run`)
+        st_, sn_ = list(local_callees(ctx, body_of(ctx, k))), set()
+        while st_:
+            k2 = st_.pop()
+            if k2 in sn_:
+                continue
+            sn_.add(k2)
+            cb2 = body_of(ctx, k2)
+            if cb2 is not None:
+                st_.extend(local_callees(ctx, cb2))
+        below |= sn_
     ac = [k for k in cands if k not in below]
     if len(ac) != 1:
         ctx.unknown('C12.ess', A, 'autocov', why='expected the ESS helper to call exactly one crate-local autocovariance function (2-D view -> 2-D array); found %s among %s' % (ac, callees), sp=be['sp'])
@@ -192,7 +202,20 @@ def autocov(ctx, ackey, bodies):
         ctx.unknown('C12.switch', A, 'anchor', why='autocovariance function not found')
         return
     callees = local_callees(ctx, ba)
-    ev = ctx.evaluate(ba, inline=False)
+    # the two implementations stay opaque calls; private dispatch helpers between the switch and them (an enum of methods with a
+    # `run`, a threshold function) are inlined
+    ACOV_SIG = r"ViewRepr<&('\w+ )?f32>, ndarray::Dim<\[usize; 2\]>>\) -> ndarray::ArrayBase<ndarray::OwnedRepr<f32>, ndarray::Dim<\[usize; 2\]>>"
+    st_, reach = list(callees), set()
+    while st_:
+        k2 = st_.pop()
+        if k2 in reach:
+            continue
+        reach.add(k2)
+        cb2 = body_of(ctx, k2)
+        if cb2 is not None:
+            st_.extend(local_callees(ctx, cb2))
+    impls = [k2 for k2 in reach if body_of(ctx, k2) is not None and len(body_of(ctx, k2).get('params', [])) == 1 and re.search(ACOV_SIG, body_of(ctx, k2).get('sig') or '')]
+    ev = ctx.evaluate(ba, no_inline=tuple(impls), tag='switch') if set(callees) - set(impls) else ctx.evaluate(ba, inline=False)
     ret = ev.ret_term
     ps = [p['pat']['name'] for p in ba['params'] if p.get('pat', {}).get('k') == 'Binding']
     smp = S(ps[0]) if ps else S('sample')
